@@ -162,12 +162,126 @@ def inlined(F, fn, depth=2, stop=None, max_blocks=900, force=None):
     if not changed:
         cache[key] = fn
         return fn
+    _forward_refs(blocks, fn.argc)
     j2 = dict(fn.j)
     j2['mir'] = {'argc': fn.argc, 'locals': locals_, 'names': fn.mir.get('names', []), 'blocks': blocks}
     out = factsmod.Fn(j2, fn.facts)
     out.raw = fn
     cache[key] = out
     return out
+
+
+def _forward_refs(blocks, argc):
+    for _ in range(5):
+        if not _forward_refs_once(blocks, argc):
+            break
+
+
+def _forward_refs_once(blocks, argc):
+    """after inlining, a helper's `&mut self` / `this: &mut T` parameter is a temporary assigned exactly once from `&mut <local place>`: every
+    `(*tmp).f` is that place's `.f`.  Rewriting the dereferences (the alias is exact) lets value rules see a field write made through a closure or a
+    setter helper as a write of the struct itself."""
+    counts = {}
+    refs = {}
+    tuples = {}
+    for b in blocks:
+        for s_ in b['s']:
+            if s_['k'] == 'assign' and 'proj' not in s_['p']:
+                l = s_['p']['l']
+                counts[l] = counts.get(l, 0) + 1
+                rv = s_['rv']
+                if rv['k'] == 'ref' and all(isinstance(e, dict) and 'f' in e for e in rv['p'].get('proj', [])):
+                    refs[l] = rv['p']
+                elif rv['k'] == 'use' and rv['op'].get('k') in ('copy', 'move') and 'proj' not in rv['op']['p']:
+                    refs[l] = ('alias', rv['op']['p']['l'])
+                elif rv['k'] == 'use' and rv['op'].get('k') in ('copy', 'move') and len(rv['op']['p'].get('proj', [])) == 1 and \
+                        isinstance(rv['op']['p']['proj'][0], dict) and str(rv['op']['p']['proj'][0].get('f', '')).isdigit():
+                    refs[l] = ('tuple', rv['op']['p']['l'], int(rv['op']['p']['proj'][0]['f']))       # argument tuple of an inlined closure call
+                elif rv['k'] == 'agg' and rv.get('ak') == 'tuple':
+                    tuples[l] = rv['ops']
+        t = b['t']
+        if t['k'] == 'call' and t.get('dest') and 'proj' not in t['dest']:
+            counts[t['dest']['l']] = counts.get(t['dest']['l'], 0) + 2
+    target = {}
+    for l, r in refs.items():
+        if counts.get(l) != 1 or l <= argc:
+            continue
+        seen = {l}
+        while isinstance(r, tuple) and r[0] in ('alias', 'tuple'):
+            if r[0] == 'tuple':
+                ops = tuples.get(r[1])
+                o = ops[r[2]] if ops is not None and counts.get(r[1]) == 1 and r[2] < len(ops) else None
+                if not (isinstance(o, dict) and o.get('k') in ('copy', 'move') and 'proj' not in o['p']):
+                    r = None
+                    break
+                nl = o['p']['l']
+            else:
+                nl = r[1]
+            if nl in seen or counts.get(nl) != 1 or nl <= argc or nl not in refs:
+                r = None
+                break
+            seen.add(nl)
+            r = refs[nl]
+        if isinstance(r, dict):
+            target[l] = r
+    if not target:
+        return False
+
+    def fix(x):
+        if isinstance(x, dict):
+            if 'l' in x and isinstance(x.get('l'), int) and isinstance(x.get('proj'), list) and x['proj'] and x['proj'][0] == '*' and x['l'] in target:
+                tp = target[x['l']]
+                x['proj'] = list(tp.get('proj', [])) + x['proj'][1:]
+                x['l'] = tp['l']
+                if not x['proj']:
+                    del x['proj']
+            for v in list(x.values()):
+                fix(v)
+        elif isinstance(x, list):
+            for v in x:
+                fix(v)
+    for b in blocks:
+        fix(b['s'])
+        fix(b['t'])
+    # the forwarded reborrows (and the temporaries that carried them: copies, the argument tuple of an inlined closure call) are dead now; a dangling
+    # `&mut x` statement would still read as "x may have been modified through the reference"
+    cand = set(target) | {l for l, r in refs.items() if isinstance(r, tuple)} | set(tuples)
+
+    def reads(x, acc, top=True):
+        if isinstance(x, dict):
+            if 'l' in x and isinstance(x.get('l'), int) and ('proj' in x or set(x) <= {'l', 'proj'}):
+                acc[x['l']] = acc.get(x['l'], 0) + 1
+            for k_, v in x.items():
+                reads(v, acc, False)
+        elif isinstance(x, list):
+            for v in x:
+                reads(v, acc, False)
+    for _ in range(6):
+        acc = {}
+        for b in blocks:
+            for s_ in b['s']:
+                if s_['k'] == 'assign':
+                    reads(s_['rv'], acc)
+                    if 'proj' in s_['p']:
+                        acc[s_['p']['l']] = acc.get(s_['p']['l'], 0) + 1
+                elif s_['k'] not in ('live', 'dead'):
+                    reads(s_, acc)
+            reads(b['t'], acc)
+        dead = {l for l in cand if counts.get(l) == 1 and l > argc and not acc.get(l)}
+        if not dead:
+            break
+        removed = False
+        for b in blocks:
+            keep = []
+            for s_ in b['s']:
+                if s_['k'] == 'assign' and 'proj' not in s_['p'] and s_['p']['l'] in dead and s_['rv']['k'] in ('ref', 'use', 'agg'):
+                    removed = True
+                    continue
+                keep.append(s_)
+            b['s'] = keep
+        if not removed:
+            break
+    return True
 
 
 def _resolve_closure_calls(new_blocks, closure_of):
